@@ -214,7 +214,7 @@ def run_check(cid, tier, cfg):
             continue
         if data is None:
             if crash and crash['idx'] >= 0:
-                viols.append(dict(unit=u['name'], idx=crash['idx'], key='crash:' + crash['what'], desc=crash['desc'],
+                viols.append(dict(unit=u['name'], shard='%d/%d' % (k, u['shards']), idx=crash['idx'], key='crash:' + crash['what'], desc=crash['desc'],
                                   msg='process died (%s) while executing this case; stderr tail: %s' % (crash['what'], r['stderr'][-1500:])))
                 continue
             inconclusive.append('unit %s shard %d produced no result (rc=%s): %s' % (u['name'], k, r['rc'], r['stderr'][-1500:]))
@@ -238,6 +238,7 @@ def run_check(cid, tier, cfg):
                 samples.append('[%s] %s' % (u['name'], s))
         for v in data['violations']:
             v['unit'] = u['name']
+            v['shard'] = '%d/%d' % (k, u['shards'])
             viols.append(v)
         nv_extra = data['nviol'] - len(data['violations'])
         if nv_extra > 0:
@@ -320,7 +321,7 @@ def run_check(cid, tier, cfg):
                 break
             n += 1
             rp = next_replay_path(cid)
-            json.dump(dict(property=cid, tier=tier, unit=v['unit'], idx=v['idx'], key=v['key'], desc=v['desc'], msg=v['msg'],
+            json.dump(dict(property=cid, tier=tier, unit=v['unit'], shard=v.get('shard', '0/1'), idx=v['idx'], key=v['key'], desc=v['desc'], msg=v['msg'],
                            replay_cmd='./check replay ' + rp), open(rp, 'w'), indent=1)
             print('VIOLATION property=%s replay=%s' % (cid, rp))
             print('   unit=%s key=%s case=%s\n   %s' % (v['unit'], v['key'], v['desc'][:600], v['msg'][:1200]))
@@ -356,7 +357,7 @@ def replay(path, cfgs):
     outs = []
     for rep in range(2):
         out = os.path.join(odir, 'replay.%d.json' % rep)
-        cmd = [binp, '--tier', tier, '--case', str(rp['idx']), '--out', out, '--variant', u['name']] + u['args']
+        cmd = [binp, '--tier', tier, '--case', str(rp['idx']), '--shard', rp.get('shard', '0/1'), '--out', out, '--variant', u['name']] + u['args']
         env = dict(SAN_ENV) if u['mode'] == 'san' else {}
         env.update(u['env'])
         r = run_proc(cmd, env, 600, out)
